@@ -461,7 +461,14 @@ func (eq *eq) Execute(searcher index.GetSearcher, seriesID common.SeriesID, tr *
 }
 
 func (eq *eq) ShouldSkip(tagFamilyFilters index.FilterOp) (bool, error) {
-	return !tagFamilyFilters.Eq(eq.Key.Tags[0], eq.Expr.String()), nil
+	// The block filters are built from the stored bytes of the tag values (e.g. the 8-byte
+	// ordered encoding of an int), so the literal has to be probed in that form, not as text.
+	bb := eq.Expr.Bytes()
+	if len(bb) != 1 {
+		// null or multi-valued literal: a membership test cannot decide it.
+		return false, nil
+	}
+	return !tagFamilyFilters.Eq(eq.Key.Tags[0], convert.BytesToString(bb[0])), nil
 }
 
 func (eq *eq) MarshalJSON() ([]byte, error) {
